@@ -515,6 +515,32 @@ func c10Decode(c *core.Ctx, k *core.Case) {
 	if !bytes.Equal(backing, orig) {
 		c.Fail(k, "input-follows-message:"+epNames[ep], "flipping every octet of the decoded message changed the input")
 	}
+	// the decoded message is the caller's: overwrite every scalar in it, then the
+	// same octets must still decode to what they decoded to before. A decoder that
+	// hands out pointers into package state (preallocated values, caches) fails here.
+	scribbleAll(reflect.ValueOf(m), 0)
+	in3 := cloneB(orig)
+	m3 := nas.NewMessage()
+	var err3 error
+	switch ep {
+	case epPlain:
+		err3 = m3.PlainNasDecode(&in3)
+	case epGmm:
+		err3 = m3.GmmMessageDecode(&in3)
+	case epGsm:
+		err3 = m3.GsmMessageDecode(&in3)
+	}
+	if err3 != nil || !reflect.DeepEqual(m3, snap) {
+		where := "?"
+		if names, _, o3 := bodyPointers(m3); len(names) == 1 && o3 != nil {
+			if _, _, os := bodyPointers(snap.(*nas.Message)); os != nil && reflect.TypeOf(os) == reflect.TypeOf(o3) {
+				if sp, _ := codecSpec(); sp != nil && sp.Msg(names[0]) != nil {
+					where = names[0] + "." + firstDiff(sp.Msg(names[0]), os, o3)
+				}
+			}
+		}
+		c.Fail(k, "decode-depends-on-earlier-result:"+where, fmt.Sprintf("after every field of an earlier decoded message was overwritten, decoding %s again gives a different message at %s (err %v): decoded values share memory with package state", hx(orig), where, err3))
+	}
 }
 
 // oracle "encode-pure": S=[msg] B=[well-formed plan bytes, prefill] I=[spare, path]
@@ -686,7 +712,7 @@ func init() {
 		ID:   "C10",
 		Rule: "decode: accepted and rejected inputs (random plans in nine presence patterns, their mutations, repository samples) through the three entry points with the input placed in a slice with guarded spare capacity: input octets, slice header and spare capacity unchanged; no []byte reachable from the message lies inside the input's backing array (address ranges via reflection); flipping every input octet leaves the message deep-equal to its snapshot and vice versa; two runs agree. encode: well-formed messages into buffers pre-filled with 0..64 octets and 0..64 octets of spare capacity: message deep-equal to its snapshot, prefix unchanged, appended bytes equal an encode into an empty buffer, no aliasing between message and output. Non-trivial = accepted input with at least one buffer-backed element, or encode with a non-empty prefill; distinct by bytes.",
 		Assumptions: []string{"address-range comparison uses reflect.Value.Pointer / unsafe on live slices in one goroutine"},
-		Oracles:     map[string]func(*core.Ctx, *core.Case){"decode-pure": c10Decode, "encode-pure": c10Encode, "decode-concurrent": c10DecodeConcurrent},
+		Oracles:     map[string]func(*core.Ctx, *core.Case){"decode-pure": c10Decode, "encode-pure": c10Encode, "decode-concurrent": c10DecodeConcurrent, "decode-reuse": c10DecodeReuse},
 	}
 	p.Floors = func(tier string, cov map[string]map[string]int64, cnt map[string]int64) []string {
 		var f []string
@@ -762,6 +788,20 @@ func init() {
 				}
 			}})
 		}
+		us = append(us, reuseUnits(sp, "decode-reuse", 30, 600)...)
+		us = append(us, domainUnits(sp, msgs, tier, 30, func(c *core.Ctx, d *domainPDU, i int) {
+			if i%3 != 0 && !c.Thorough() {
+				return
+			}
+			ep := int64(epPlain)
+			if i%2 == 1 {
+				ep = epGmm
+				if d.Def.Family == "GSM" {
+					ep = epGsm
+				}
+			}
+			c.Do(&core.Case{Oracle: "decode-pure", Target: "nas.Message." + epNames[ep], B: [][]byte{d.B}, I: []int64{ep}})
+		})...)
 		us = append(us, core.Unit{Name: "repository-samples", Weight: 20, Run: func(c *core.Ctx) {
 			for i, s := range repositorySamples() {
 				def := msgs[i%len(msgs)]
